@@ -11,12 +11,15 @@ def sgn (j : Nat) : Rat := if j % 2 = 0 then 1 else -1
 
 /-- `Determinant()` of an `n × n` matrix by Laplace expansion along the first row, exactly as
     coded: `rows == 1`, `rows == 2` base cases; otherwise `det += (sign·a_0j) · Sub_Matrix(0,j).Determinant()`
-    for `j = 0 … columns-1` in this order.  `rows == 0` runs the general branch with an empty loop: 0. -/
+    for `j = 0 … columns-1` in this order, skipping the entries `a_0j = 0` (fix 07c574c; a no-op in exact
+    arithmetic, theorem `detN_skip_noop`; in floating point it avoids `0 · inf = NaN` when a cofactor overflows).  `rows == 0` runs the general branch with an empty loop: 0. -/
 def detN : Nat → Mat → Rat
   | 0, _ => 0
   | 1, A => A.get 0 0
   | 2, A => A.get 0 0 * A.get 1 1 - A.get 0 1 * A.get 1 0
-  | n + 3, A => sumRange (n + 3) (fun j => (sgn j * A.get 0 j) * detN (n + 2) (subMatrixN A 0 j))
+  | n + 3, A => sumRange (n + 3) (fun j =>
+      -- fix 07c574c: `if(factors[j] == 0.0) continue;` — a vanishing first-row entry contributes nothing
+      if sgn j * A.get 0 j = 0 then 0 else (sgn j * A.get 0 j) * detN (n + 2) (subMatrixN A 0 j))
 
 /-- the same recursion on absolute values without signs: the sum of the absolute values of all
     terms the expansion adds (the scale of the class-B tolerance; = permanent of |A|) -/
